@@ -661,8 +661,74 @@ func harnessA(c *ev.Check, kind string, bound int) xa.Harness {
 	return xa.Harness{Name: name, Bound: bound, Shards: 1, Horizon: 20000, Body: body, Check: check}
 }
 
+// a whole request (match, then pick) racing a Sync that removes the old policy's only endpoint and moves the subset:
+// inside Sync the endpoints change before the policies do, so the request can meet the OLD policy (subset {0}) with
+// the NEW endpoints ({1,2}). Whatever it meets, endpoint 2 is in neither policy's subset and must never get it.
+func harnessMatchVsSubsetMove(c *ev.Check, bound int) xa.Harness {
+	name := "request-vs-subset-move"
+	body := func() interface{} {
+		var ci *clusters.ClusterInfo
+		sp := specv{servers: []int{0, 1, 2}, disabled: -1, subset: []int{0}}
+		vsched.Passthrough(func() {
+			var err error
+			ci, err = clusters.CreateClusterInfo(sp.object(), func(*clusters.EndpointInfo) bool { return true }, "", nil)
+			if err != nil {
+				panic(err)
+			}
+			for _, k := range sp.servers {
+				info, _ := ci.Endpoints.Load(ep(k))
+				info.UpdateStatus(true, "", "")
+			}
+		})
+		clk := 0
+		o := &obsA{picked: -2}
+		vsched.GoNamed("request", func() {
+			clk++
+			o.popCall = clk
+			o.picked = -1
+			if picker, err := ci.MatchAttributes(attrs); err == nil {
+				if e, err := picker.Pop(); err == nil {
+					o.picked = epIndex(e.Endpoint)
+				}
+			}
+			clk++
+			o.popRet = clk
+			vsched.Logf("picked %d", o.picked)
+		})
+		vsched.GoNamed("sync", func() {
+			clk++
+			o.flipCall = clk
+			d := specv{servers: []int{1, 2}, disabled: -1, subset: []int{1}}
+			vsched.Passthrough(func() {}) // (keeps the shape of the other harnesses: the Sync itself runs under the scheduler)
+			_ = ci.Sync(d.object())
+			// endpoints start unhealthy when (re-)added; 1 and 2 were present before and keep their health
+			clk++
+			o.flipRet = clk
+			vsched.Logf("synced")
+		})
+		vsched.Join()
+		vsched.Passthrough(func() { ci.Stop() })
+		return o
+	}
+	check := func(x *vsched.Exec) error {
+		o := x.Obs.(*obsA)
+		c.Outcome("pick_race_outcomes", fmt.Sprint(name, o.picked, o.flipRet < o.popCall))
+		if o.picked == 2 {
+			return fmt.Errorf("picked-outside-every-subset: the old policy lists endpoint 0, the new one endpoint 1; the request was forwarded to endpoint 2, which no policy of this cluster ever allowed")
+		}
+		if o.picked == 0 && o.flipRet < o.popCall {
+			return fmt.Errorf("picked-after-remove: endpoint 0 was removed before the request started, yet it was picked")
+		}
+		if o.picked == -1 && o.popRet < o.flipCall {
+			return fmt.Errorf("refused-although-ready: the request finished before the update started, yet it failed")
+		}
+		return nil
+	}
+	return xa.Harness{Name: name, Bound: bound, Shards: 1, Horizon: 20000, Body: body, Check: check}
+}
+
 func harnesses(c *ev.Check, b int) []xa.Harness {
-	return []xa.Harness{harnessA(c, "disable", b), harnessA(c, "unhealthy", b), harnessA(c, "remove", b)}
+	return []xa.Harness{harnessA(c, "disable", b), harnessA(c, "unhealthy", b), harnessA(c, "remove", b), harnessMatchVsSubsetMove(c, b)}
 }
 
 // ------------------------------------------------------------------ free-running stress: the request path never panics
